@@ -102,6 +102,8 @@ def unit_attempt_field(has_prompt=True):
         else:
             exc = p.outcome[1]
             out.append(('propagated-exception-is-not-a-handled-one', z3.BoolVal(not isinstance(exc, handled))))
+            # AttributeError / KeyError / TypeError / NameError can only come from state the contract view does not know
+            out.append(('no-internal-error-outside-the-contract-view', z3.BoolVal(not isinstance(exc, (AttributeError, KeyError, TypeError, NameError, IndexError)))))
         return out
 
     def props_of(label):
@@ -273,6 +275,9 @@ def finish_with_refutation(prop, obs, select, seed, tier):
             continue
         o = Ob(**{**o.__dict__})
         o.id = o.id.replace('SOLVER/', f'{prop}/solver/')
+        if o.status in (oblig.UNDECIDED, oblig.REFUTED) and (o.replay or {}).get('reproduced'):
+            out.append(o)
+            continue
         if o.status in (oblig.UNDECIDED, oblig.REFUTED):
             if not searched:
                 searched = True
